@@ -693,8 +693,7 @@ RULE = ("histories over 2..4 addresses drawn from a pool of int and float ranges
 TRUSTED = ["harness/h_C20.cpp: real MidiMappernRT + MidiMapperRT, rt_cb / frontend queued by the harness, nRT->RT messages "
            "dispatched through MidiMapperRT::ports, backend messages decoded by hand; one forked child per case",
            "tools/props/C20.py spec_walk: the property text as a checker over (history, records) - tracks learn queue, "
-           "assignments on both sides and 7-bit values, never an index; classify(): nocross + pending_before (the pending set as the "
-           "records imply it) decide whether a failure is the known finding",
+           "assignments on both sides and 7-bit values, never an index",
            "Flocq 4.x (Core, Calc.Round/Bracket, Prop.Relative/Plus_error) and the standard library's real numbers under "
            "C20_bijection_range / _monotone / _monotone_7bit (axioms: ClassicalDedekindReals.sig_forall_dec, sig_not_dec, "
            "Classical_Prop.classic, functional_extensionality_dep); the float model has no overflow / NaN / -0.0"]
@@ -705,29 +704,26 @@ ASSUMPTIONS = ["controller values are 7-bit (0..127); port bounds are finite flo
 TECHNIQUE = ("Coq proofs about a two-process model (nRT half, RT half, two FIFO channels, histories = external events + "
              "deliveries) of midimapper.cpp + differential correspondence against the real classes under ASan with "
              "harness-controlled delivery order")
-LEVEL_TEXT = ("For every history (unbounded) of map/unMap/clear/CC/deliveries in which no midi-bind crosses a midi-use-CC (nocross: a bind "
-              "other than the answer to a midi-use-CC is sent only when every pending controller's answer is already on its way, and no "
-              "controller is offered while such a bind is under way) over at most "
-              "32 controllers: no snapshot on either side ever holds a controller twice and every offered controller finds a queued "
-              "address and is in no entry of the current snapshot (C20_nocross_learn_partial, invariant over both processes, the "
-              "channels and the PendingQueue ring); the history never crashes (C20_nocross_crash_free_partial); its records - parameter "
-              "messages with their values included - are those of the abstract specification (C20_refines_spec_partial). Per operation, "
-              "for all states: 14-bit composition (C20_compose_14bit), the "
-              "learned controller gets the slot with the queued address's callback and all others keep theirs "
-              "(C20_learn_oldest), unMap removes exactly the controller "
-              "(C20_unmap_stops), no entry => no message (C20_unassigned_silent), bind installs the snapshot (C20_bind_installs); "
-              "every callback sends to its own address a value in [min,max] that grows with the 14-bit input "
-              "(C20_bijection_range/_monotone/_monotone_7bit, for the executable rounding, proved equal to Flocq's round-to-nearest-even). The unrestricted statement is refuted by a computed "
-              "witness (C20_refuted = D19, reproduced on the code, known finding).")
-LEVEL_NOTE = ("Stage 4: the side condition is nocross (weaker than the earlier quiescent: C20_nocross_wider_nonvacuous); it is the same "
-              "predicate in MidiSpec.v and in this file, the model driver prints its value and the correspondence run compares the two on "
-              "every history.  The class bind-crosses-use-cc is contained in its complement and narrower: a failure belongs to it only if "
-              "the controller concerned is pending on the realtime side without an outstanding answer or the other way round (a bind "
-              "removed a controller it does not answer); every other failure in a crossing history is a violation.  Crossing histories in "
-              "which the code behaves as the text says (e.g. clear() between the halves' messages with one controller on its way, "
-              "MidiCross.clear_cross_survives) are covered by the Spec oracle and the correspondence run, not by a theorem.  "
-              "The system invariant Inv (inv_map / mapping / callback / value vectors and every snapshot consistent) is "
-              "preserved by every event of a nocross history and makes every step defined (C20_inv_init, C20_inv_step).  "
-              "The bound of 32 controllers is tight (C20_capacity_refuted, outside the property's quantifier; model and code agree "
-              "beyond it, tie-only cases).  "
-              "Not modelled: float overflow / NaN / -0.0.  See notes/C20.md.")
+LEVEL_TEXT = ("For EVERY history (unbounded) of map/unMap/clear/CC/deliveries - the realtime and the non-realtime half exchanging their "
+              "messages in any order - over at most 32 controllers: the model's records, parameter messages with their values included, are "
+              "exactly those of the abstract specification (C20_refines_spec: finite map controller -> (address, kind), FIFO of addresses "
+              "waiting to learn, delayed copy, 7-bit values, 14-bit composition); no crash, every vector access in range "
+              "(C20_inv_step, C20_crash_free); no snapshot holds a controller twice and no controller is given a second address "
+              "(C20_learn_once); the pending ring holds exactly the controllers whose answer is outstanding (C20_pending_exact); a parameter "
+              "message comes only from a controller assigned before (C20_unassigned_silent_history). Per operation, for all states: 14-bit "
+              "composition (C20_compose_14bit), the learned controller gets the slot with the queued address's callback and all others keep "
+              "theirs (C20_learn_oldest), unMap removes exactly the controller (C20_unmap_stops), no entry => no message "
+              "(C20_unassigned_silent), bind installs the snapshot (C20_bind_installs); every callback sends to its own address a value in "
+              "[min,max] that grows with the 14-bit input (C20_bijection_range/_monotone/_monotone_7bit, for the executable rounding, proved "
+              "equal to Flocq's round-to-nearest-even). Partial: 'every midi-use-CC finds a queued address' needs nocross "
+              "(C20_nocross_learn_partial; after a crossing clear() it finds none and is answered with the unchanged mapping).")
+LEVEL_NOTE = ("Stage 4: D19 (every midi-bind released the oldest pending controller) repaired in the repository - a snapshot says which "
+              "controller's midi-use-CC it answers (MidiMapperStorage::answers), only such a snapshot releases a pending controller, a "
+              "midi-use-CC that finds no address is answered with the unchanged mapping; the model follows, the old functions and the "
+              "witness are in coq/Midi/MidiRegress.v (C20_d19_regress, stuck_refuted), the same histories on the repaired functions in "
+              "C20_d19_repaired / stuck_repaired.  With it the history-level theorems lost their side condition.  nocross remains the side "
+              "condition of C20_nocross_learn_partial only; it is the same predicate in MidiSpec.v and in this file, the model driver prints "
+              "its value, the pending set the records imply (pending_of) and whether the model's ring holds it; canon() sets the plug-in's "
+              "values and the real ring beside them, so the correspondence run compares all of it on every history.  No known-finding class "
+              "is left.  The bound of 32 controllers is tight (C20_capacity_refuted, outside the property's quantifier; model and code agree "
+              "beyond it, tie-only cases).  Not modelled: float overflow / NaN / -0.0.  See notes/C20.md.")
